@@ -10,6 +10,7 @@ import (
 	sentinel "github.com/alibaba/sentinel-golang/api"
 	"github.com/alibaba/sentinel-golang/core/base"
 	"github.com/alibaba/sentinel-golang/core/flow"
+	"github.com/alibaba/sentinel-golang/core/system_metric"
 	"pgregory.net/rapid"
 
 	"verif/harness/hx"
@@ -33,6 +34,25 @@ func need(b uint32, T float64, intervalMs int) int64 {
 func loadRule(t *rapid.T, T float64, ivMs, qMs int) {
 	r := &flow.Rule{Resource: "t", TokenCalculateStrategy: flow.Direct, ControlBehavior: flow.Throttling, Threshold: T,
 		StatIntervalInMs: uint32(ivMs), MaxQueueingTimeMs: uint32(qMs)}
+	// the same pacing threshold expressed through the memory-adaptive strategy: with the memory reading pinned below the
+	// low (above the high) water mark the effective threshold is the configured low-memory (high-memory) threshold
+	if T >= 1 && T == math.Floor(T) {
+		switch rapid.IntRange(0, 3).Draw(t, "thresholdVia") {
+		case 1:
+			r.TokenCalculateStrategy, r.Threshold = flow.MemoryAdaptive, 0
+			r.LowMemUsageThreshold, r.HighMemUsageThreshold, r.MemLowWaterMarkBytes, r.MemHighWaterMarkBytes = int64(T), int64(T)-1, 1000, 2000
+			if r.HighMemUsageThreshold < 1 {
+				r.LowMemUsageThreshold, r.HighMemUsageThreshold = int64(T), int64(T) // invalid (low must exceed high): fall back
+				r.TokenCalculateStrategy, r.Threshold = flow.Direct, T
+			} else {
+				system_metric.SetSystemMemoryUsage(500)
+			}
+		case 2:
+			r.TokenCalculateStrategy, r.Threshold = flow.MemoryAdaptive, 0
+			r.LowMemUsageThreshold, r.HighMemUsageThreshold, r.MemLowWaterMarkBytes, r.MemHighWaterMarkBytes = int64(T)+5, int64(T), 1000, 2000
+			system_metric.SetSystemMemoryUsage(5000)
+		}
+	}
 	if _, err := flow.LoadRules([]*flow.Rule{r}); err != nil {
 		t.Fatalf("LoadRules: %v", err)
 	}
